@@ -8,5 +8,5 @@ def check(res):
     genprop.run(res, "C02", PROPFILE, corpus, spec_cmp="obs_same_types")
 
 
-PROPFILE = None
+PROPFILE = "theories/Properties/C02.v"
 replay = genprop.replay
